@@ -203,10 +203,10 @@ package gojq
 //@ axiom cmpv_int: forall a, b any :: {cmpv(a, b)} isInteger(a) && isInteger(b) ==> cmpv(a, b) == sign(pintval(a) - pintval(b))
 //@ axiom cmpv_float: forall a, b any :: {cmpv(a, b)} isNum(a) && isNum(b) && !(isInteger(a) && isInteger(b)) ==> cmpv(a, b) == cmpf(fval(a), fval(b))
 //@ axiom cmpv_str: forall a, b any :: {cmpv(a, b)} (a is string) && (b is string) ==> cmpv(a, b) == cmps(a.(string), b.(string))
-//@ axiom fd_def: forall a, b []any :: {fd(a, b)} 0 <= fd(a, b) && fd(a, b) <= min(len(a), len(b)) &&
-//@     (forall j :: {cmpv(a[j], b[j])} 0 <= j && j < fd(a, b) ==> cmpv(a[j], b[j]) == 0) &&
-//@     (fd(a, b) < min(len(a), len(b)) ==> cmpv(a[fd(a, b)], b[fd(a, b)]) != 0)
-//@ axiom cmpv_arr: forall a, b []any :: {cmpv(a, b)} cmpv(a, b) ==
+//@ axiom fd_def: forall a, b []any :: {fd(a, b)} 0 <= fd(a, b) && fd(a, b) <= min(len(a), len(b))
+//@ axiom fd_zero: forall a, b []any; j int :: {fd(a, b), cmpv(a[j], b[j])} 0 <= j && j < fd(a, b) ==> cmpv(a[j], b[j]) == 0
+//@ axiom fd_diff: forall a, b []any :: {fd(a, b)} fd(a, b) < min(len(a), len(b)) ==> cmpv(a[fd(a, b)], b[fd(a, b)]) != 0
+//@ axiom cmpv_arr: forall a, b []any :: {fd(a, b)} cmpv(a, b) ==
 //@     ((fd(a, b) < min(len(a), len(b))) ? cmpv(a[fd(a, b)], b[fd(a, b)]) : sign(len(a) - len(b)))
 
 //@ func typeIndex(v any) (r int)
@@ -221,10 +221,33 @@ package gojq
 //@   property C11
 //@   ensures c == cmpf(l, r)
 
+// The first differing index is determined by the element comparisons (from fd_def).
+//@ lemma fd_unique(a []any, b []any, i int)
+//@   property C11
+//@   using fd_def fd_zero fd_diff
+//@   requires 0 <= i && i < min(len(a), len(b)) && cmpv(a[i], b[i]) != 0
+//@   requires forall j :: {cmpv(a[j], b[j])} 0 <= j && j < i ==> cmpv(a[j], b[j]) == 0
+//@   use fd_def(a, b)
+//@   use fd_zero(a, b, i)
+//@   use fd_diff(a, b)
+//@   ensures fd(a, b) == i
+
+//@ lemma fd_all(a []any, b []any)
+//@   property C11
+//@   using fd_def fd_zero fd_diff
+//@   requires forall j :: {cmpv(a[j], b[j])} 0 <= j && j < min(len(a), len(b)) ==> cmpv(a[j], b[j]) == 0
+//@   use fd_def(a, b)
+//@   use fd_diff(a, b)
+//@   ensures fd(a, b) == min(len(a), len(b))
+
 //@ func Compare$2(l, r []any) (c int)
 //@   property C11
+//@   using fd_def fd_zero fd_diff cmpv_arr
+//@   returns 2
 //@   loop 1 invariant 0 <= i && i <= min(len(l), len(r))
 //@   loop 1 invariant forall j :: {cmpv(l[j], r[j])} 0 <= j && j < i ==> cmpv(l[j], r[j]) == 0
+//@   return 1 use fd_unique(l, r, i)
+//@   return 2 use fd_all(l, r)
 //@   ensures c == cmpv(l, r)
 
 //@ func Compare$4(l, r any) (c int)
